@@ -151,7 +151,17 @@ func (fr *Frame) instr(in ssa.Instruction, st *State, reach string) (stop bool, 
 	case *ssa.Range:
 		m := fr.val(x.X)
 		m.Go = x.X.Type()
-		fr.vals[x] = Val{T: m.T, Go: x.X.Type(), Sort: SInt, Tup: []Val{m}}
+		rv := Val{T: m.T, Go: x.X.Type(), Sort: SInt, Tup: []Val{m}}
+		if mt, ok := x.X.Type().Underlying().(*types.Map); ok {
+			// ghost set of the keys already yielded by this iteration (named `visited` in the loop's invariants)
+			g.nLocal++
+			ks := g.sorts.SortOf(mt.Key())
+			h := g.regHeap(fmt.Sprintf("Local:%s.visited#%d", fr.fn.Name(), g.nLocal), arrSort(ks, SBool))
+			st.h[h] = fmt.Sprintf("((as const %s) false)", arrSort(ks, SBool))
+			rv.Loc = &Loc{Heap: h}
+			fr.rangeVisited = append(fr.rangeVisited, rangeVis{x, h})
+		}
+		fr.vals[x] = rv
 	case *ssa.Next:
 		fr.vals[x] = fr.nextOp(x, st)
 	case *ssa.Select:
@@ -907,6 +917,16 @@ func (fr *Frame) nextOp(x *ssa.Next, st *State) Val {
 	k := Val{T: g.fresh("range.k", g.sorts.SortOf(mt.Key())), Go: mt.Key(), Sort: g.sorts.SortOf(mt.Key())}
 	g.typeFacts(k, st)
 	g.assume(sImp(ok.T, sAnd(app("select", app("select", g.heapGet(st, dom), it.T), k.T), sNot(app("=", it.T, "0")), app(">", app("select", g.heapGet(st, ln), it.T), "0"))))
+	if it.Loc != nil && strings.Contains(it.Loc.Heap, ".visited#") {
+		// each key is yielded at most once, and the iteration ends only when every key of the map has been yielded
+		// (for a map that is not modified during the iteration)
+		vis := g.heapGet(st, it.Loc.Heap)
+		g.assume(sImp(ok.T, sNot(app("select", vis, k.T))))
+		ks := g.sorts.SortOf(mt.Key())
+		g.assume(sImp(sNot(ok.T), fmt.Sprintf("(forall ((k! %s)) (! (=> (select (select %s %s) k!) (select %s k!)) :pattern ((select %s k!))))",
+			ks, g.heapGet(st, dom), it.T, vis, vis)))
+		g.heapSet(st, it.Loc.Heap, sIte(ok.T, app("store", vis, k.T, "true"), vis))
+	}
 	v := Val{T: app("select", app("select", g.heapGet(st, val), it.T), k.T), Go: mt.Elem(), Sort: g.sorts.SortOf(mt.Elem())}
 	g.typeFacts(v, st)
 	// the tuple's declared component types may be invalid types when unused
